@@ -6,12 +6,15 @@ import (
 	"context"
 	"fmt"
 	"math/rand"
+	"strings"
+	"runtime"
 	"sync"
 	"sync/atomic"
 	"testing"
 	"time"
 
 	"github.com/tochemey/goakt/v4/internal/verifrt"
+	"github.com/tochemey/goakt/v4/passivation"
 	"github.com/tochemey/goakt/v4/reentrancy"
 )
 
@@ -73,14 +76,18 @@ type c17Msg struct {
 type c17StopCmd struct{}
 
 type c17Actor struct {
-	cs  *c17Case
-	idx int
+	cs       *c17Case
+	idx      int
+	slowStop time.Duration // idle (passivating) actors: PostStop takes this long
 }
 
 func (a *c17Actor) PreStart(*Context) error { return nil }
 
 func (a *c17Actor) PostStop(*Context) error {
 	a.cs.log.add("poststop-enter", a.idx, 0)
+	if a.slowStop > 0 {
+		time.Sleep(a.slowStop)
+	}
 	for i := 0; i < a.idx%7; i++ {
 		// a little work so that ordering windows are not empty
 		time.Sleep(10 * time.Microsecond)
@@ -133,8 +140,9 @@ func (a *c17Actor) Receive(ctx *ReceiveContext) {
 var c17Grains sync.Map // grain name -> *c17GrainRef
 
 type c17GrainRef struct {
-	cs  *c17Case
-	idx int
+	cs   *c17Case
+	idx  int
+	slow time.Duration // idle (self-deactivating) grains: OnDeactivate takes this long
 }
 
 type C17Grain struct {
@@ -177,6 +185,9 @@ func (g *C17Grain) OnReceive(gctx *GrainContext) {
 
 func (g *C17Grain) OnDeactivate(context.Context, *GrainProps) error {
 	g.ref.cs.log.add("grain-deact-enter", g.ref.idx, g.tok)
+	if g.ref.slow > 0 {
+		time.Sleep(g.ref.slow)
+	}
 	g.ref.cs.log.add("grain-deact-exit", g.ref.idx, g.tok)
 	return nil
 }
@@ -192,10 +203,11 @@ type c17Knobs struct {
 	Activate  bool // a sender keeps activating fresh grains while Stop runs
 	StopTraffic bool // PoisonPill / ctx.Shutdown() / Stop(child) aimed at tree actors around the Stop call
 	Noise     int
+	Idle      int // extra actors and grains nobody sends to, with an idle timeout aimed at the Stop call and slow PostStop / OnDeactivate
 }
 
 func (k c17Knobs) String() string {
-	return fmt.Sprintf("actors=%d depth=%d grains=%d senders=%d dwell=%dus prestop=%d fromactor=%v activate=%v stoptraffic=%v noise=%d", k.Actors, k.Depth, k.Grains, k.Senders, k.DwellUS, k.PreStop, k.FromActor, k.Activate, k.StopTraffic, k.Noise)
+	return fmt.Sprintf("actors=%d depth=%d grains=%d senders=%d dwell=%dus prestop=%d fromactor=%v activate=%v stoptraffic=%v noise=%d idle=%d", k.Actors, k.Depth, k.Grains, k.Senders, k.DwellUS, k.PreStop, k.FromActor, k.Activate, k.StopTraffic, k.Noise, k.Idle)
 }
 
 func c17GenKnobs(rng *rand.Rand) c17Knobs {
@@ -210,10 +222,39 @@ func c17GenKnobs(rng *rand.Rand) c17Knobs {
 		Activate:  rng.Intn(3) == 0,
 		StopTraffic: rng.Intn(3) != 0,
 		Noise:     rng.Intn(3),
+		Idle:      []int{0, 0, 2, 4}[rng.Intn(4)],
 	}
 }
 
 var c17CaseCounter atomic.Int64
+
+// c17WhereStopBlocked names the innermost goakt function below actorSystem.shutdown
+// on the goroutine that is still inside ActorSystem.Stop.
+func c17WhereStopBlocked() string {
+	buf := make([]byte, 16<<20)
+	n := runtime.Stack(buf, true)
+	for _, g := range strings.Split(string(buf[:n]), "\n\n") {
+		if !strings.Contains(g, "(*actorSystem).shutdown(") {
+			continue
+		}
+		for _, ln := range strings.Split(g, "\n") {
+			if strings.HasPrefix(ln, "github.com/tochemey/goakt/v4/actor.") {
+				fn := strings.TrimPrefix(ln, "github.com/tochemey/goakt/v4/actor.")
+				recv := ""
+				if strings.HasPrefix(fn, "(") { // method: (*T).name(args)
+					if j := strings.Index(fn, ")."); j > 0 {
+						recv, fn = fn[:j+2], fn[j+2:]
+					}
+				}
+				if i := strings.IndexByte(fn, '('); i > 0 {
+					fn = fn[:i]
+				}
+				return recv + fn
+			}
+		}
+	}
+	return "unknown"
+}
 
 type c17Obs struct {
 	Actors       int
@@ -231,6 +272,7 @@ type c17Obs struct {
 	StopDur      time.Duration
 	StartDur     time.Duration
 	StopTraffic  int
+	Fatal        bool // the batch cannot go on (a system is stuck inside Stop)
 }
 
 func c17RunCase(t *testing.T, k c17Knobs, seed int64) (obs c17Obs) {
@@ -335,6 +377,45 @@ func c17RunCase(t *testing.T, k c17Knobs, seed int64) (obs c17Obs) {
 		}
 	}
 
+	// idle actors and grains: nobody sends to them; their idle timeout is aimed at the
+	// moment Stop is called and their PostStop / OnDeactivate is slow, so that an idle
+	// passivation is inside the user hook while the system is being stopped
+	nTargets := len(nodes)
+	for j := 0; j < k.Idle; j++ {
+		idle := time.Duration(2+rng.Intn(14)) * time.Millisecond
+		slow := time.Duration(5+rng.Intn(40)) * time.Millisecond
+		if j%2 == 0 {
+			i := len(nodes)
+			a := &c17Actor{cs: cs, idx: i, slowStop: slow}
+			name := fmt.Sprintf("c17-%d-idle%d", cs.id, i)
+			parent := -1
+			var pid *PID
+			var err error
+			if p := rng.Intn(nTargets); rng.Intn(2) == 0 && !nodes[p].prestop {
+				parent = p
+				pid, err = nodes[p].pid.SpawnChild(ctx, name, a, WithPassivationStrategy(passivation.NewTimeBasedStrategy(idle)))
+			} else {
+				pid, err = sys.Spawn(ctx, name, a, WithPassivationStrategy(passivation.NewTimeBasedStrategy(idle)))
+			}
+			if err != nil {
+				t.Fatalf("c17 spawn idle: %v", err)
+			}
+			d := 1
+			if parent >= 0 {
+				d = nodes[parent].depth + 1
+			}
+			nodes = append(nodes, &node{pid: pid, parent: parent, depth: d})
+		} else {
+			idx := k.Grains + 1000 + j
+			name := fmt.Sprintf("c17g-%d-%d", cs.id, idx)
+			c17Grains.Store(name, &c17GrainRef{cs: cs, idx: idx, slow: slow})
+			if _, err := sys.GrainIdentity(ctx, name, func(context.Context) (Grain, error) { return &C17Grain{}, nil }, WithGrainDeactivateAfter(idle)); err != nil {
+				t.Fatalf("c17 idle grain: %v", err)
+			}
+		}
+	}
+	obs.Actors = len(nodes)
+
 	if k.Noise > 0 {
 		obs.HotSites = verifrt.StartNoise(verifrt.NoiseConfig{
 			Seed: seed, GoschedPerMille: 20, HotSites: k.Noise,
@@ -388,7 +469,7 @@ func c17RunCase(t *testing.T, k c17Knobs, seed int64) (obs c17Obs) {
 						cs.log.add("grain-identity-returned", idx, 0)
 					}
 				case c < 6 || len(idents) == 0:
-					ti := srng.Intn(len(nodes))
+					ti := srng.Intn(nTargets)
 					target = ti
 					n := nodes[ti]
 					if srng.Intn(5) == 0 {
@@ -442,7 +523,7 @@ func c17RunCase(t *testing.T, k c17Knobs, seed int64) (obs c17Obs) {
 				defer stopTrafficWG.Done()
 				defer func() { _ = recover() }()
 				for i := 0; i < 400 && !cs.stopped.Load(); i++ {
-					v := trng.Intn(len(nodes))
+					v := trng.Intn(nTargets)
 					n := nodes[v]
 					if n.prestop {
 						continue
@@ -479,7 +560,7 @@ func c17RunCase(t *testing.T, k c17Knobs, seed int64) (obs c17Obs) {
 	if k.FromActor {
 		// an actor that is still running
 		for try := 0; try < 20 && caller < 0; try++ {
-			c := rng.Intn(len(nodes))
+			c := rng.Intn(nTargets)
 			if !nodes[c].prestop {
 				caller = c
 			}
@@ -505,22 +586,30 @@ func c17RunCase(t *testing.T, k c17Knobs, seed int64) (obs c17Obs) {
 	}
 	if caller < 0 {
 		cs.log.add("stop-called", -1, 0)
-		sctx, cancel := context.WithTimeout(ctx, 60*time.Second)
-		ts := time.Now()
-		err := sys.Stop(sctx)
-		obs.StopDur = time.Since(ts)
-		cancel()
-		cs.log.add("barrier", -1, 0)
-		cs.stopped.Store(true)
-		if err != nil {
-			cs.stopErr.Store(err.Error())
-		}
-		close(cs.stopDone)
+		go func() {
+			sctx, cancel := context.WithTimeout(ctx, 60*time.Second)
+			ts := time.Now()
+			err := sys.Stop(sctx)
+			obs.StopDur = time.Since(ts)
+			cancel()
+			cs.log.add("barrier", -1, 0)
+			cs.stopped.Store(true)
+			if err != nil {
+				cs.stopErr.Store(err.Error())
+			}
+			close(cs.stopDone)
+		}()
 	}
 	select {
 	case <-cs.stopDone:
-	case <-time.After(90 * time.Second):
-		obs.Inconc = "Stop did not return within 90s"
+	case <-time.After(240 * time.Second):
+		// Stop carries a 60 s context and the system a 30 s shutdown timeout: not
+		// having returned after four times that is a Stop that never returns
+		where := c17WhereStopBlocked()
+		obs.Viol = append(obs.Viol, verifrt.Violation{Sig: "stop-never-returned:blocked-in:" + where, Detail: map[string]any{
+			"knobs": k.String(), "seed": seed, "waited": "240s (Stop context 60s, shutdown timeout 30s)", "hot_sites": obs.HotSites}})
+		obs.Fatal = true
+		stoppedSystem = true // do not call Stop a second time from the deferred clean-up
 		close(stopSenders)
 		return obs
 	}
@@ -638,8 +727,10 @@ func c17RunCase(t *testing.T, k c17Knobs, seed int64) (obs c17Obs) {
 		}
 		if psExit[i][0] > psEnter[n.parent][0] {
 			sig := "parent-poststop-before-child"
-			if stopTargeted[i].Load() {
-				// the child was (also) being stopped by its own PoisonPill / ctx.Shutdown() / Stop(child)
+			if stopTargeted[i].Load() || i >= nTargets {
+				// the child was (also) being stopped by its own PoisonPill / ctx.Shutdown() /
+				// Stop(child), or (idle actors) by its own idle passivation: whoever stops
+				// the parent skips such a child without waiting for it
 				sig += ":child-stopping-on-its-own"
 			}
 			viol(sig, map[string]any{"child": i, "parent": n.parent, "child_poststop_exit_seq": psExit[i][0], "parent_poststop_enter_seq": psEnter[n.parent][0]})
@@ -742,6 +833,9 @@ func TestVerif_C17(t *testing.T) {
 		}
 		if obs.Inconc != "" {
 			r.Inconclusive("%s (%s)", obs.Inconc, k.String())
+		}
+		if obs.Fatal {
+			break // a system stuck inside Stop keeps spinning: nothing more is judged in this batch
 		}
 		if i < 5 {
 			r.Sample(map[string]any{"knobs": k.String(), "handled": obs.Handled, "during_stop": obs.DuringStop, "poststops": obs.PostStops, "activations": obs.Activations, "sends_after": obs.SendsAfter, "stop_err": obs.StopErr})
